@@ -89,6 +89,9 @@ func init() {
 	register("C13", "concurrent use is free of races, deadlocks and lost updates", func(w *World, r *Report) {
 		lr := ruleLCK(w, r)
 		ruleLCK5(w, r, lr)
+		ruleGRDrmw(w, r, lr)
+		ruleLCK3b(w, r, lr)
+		ruleLCK6(w, r)
 		ruleORD6(w, r)
 	})
 }
